@@ -86,8 +86,37 @@ class ApiGen:
         self.hist[k] = self.hist.get(k, 0) + 1
 
     # ------------------------------------------------------------ primitives
+    def expected_wipes(self, o):
+        """C16: the stack temporaries each function must wipe over their FULL size (sizes from the tree's constants)"""
+        c = self.L.consts
+        POLY, STR, PHR, IDX = c['SIZEOF_POLY'], c['STR_SIZE'], c['SIZEOF_PHRASE'], c.get('SIZEOF_IDX', 128)
+        k = o.head.split()[0]
+        st = o.kv('st')
+        if k == 'create':
+            return [POLY] if st == '0' else []
+        if k == 'encode':
+            return [POLY, STR]
+        if k in ('decode', 'decoden'):
+            return [STR, PHR, POLY] + ([IDX] if st != '1' else [])
+        if k == 'decodex':
+            return [STR, PHR, POLY]
+        if k == 'crypt':
+            return [POLY, 32, STR]
+        if k == 'load':
+            return None if st in ('5', '6') else [POLY]
+        if k in ('keygen', 'store', 'free', 'birthday', 'feature', 'isenc'):
+            return []
+        return None
+
     def op(self, line):
         o = self.s.op(line)
+        if o is not None and o.head != 'skip' and o.result is not None:
+            exp = self.expected_wipes(o)
+            if exp is not None:
+                import re
+                got = sorted(int(re.search(r'len=(\d+)', e).group(1)) for e in o.events if e.startswith('E zero') and ' stack ' in e)
+                if got != sorted(exp):
+                    self.report('C16', 'wipe-sizes:' + o.head.split()[0], '"%s" wiped stack temporaries of sizes %s through the injected wipe, expected the full sizes %s' % (o.head[:120], got, sorted(exp)))
         if o is not None:
             self.count(o.head.split()[0] + ('/st=' + o.kv('st') if o.kv('st') is not None else ''))
             for c in o.complaints:
@@ -158,14 +187,19 @@ class ApiGen:
         o = self.op('create %d %d' % (k, feat))
         if fail:
             self.s.directive('!failalloc -1')
-        if o is None:
+        if o is None or o.head == 'skip' or o.kv('st') is None:
             return None
         st = int(o.kv('st'))
+        if st == 0:
+            self.slots[k] = dict(b=0, f=0, secret=bytes(32), chk=0, block=o.kv('seed'))   # occupied whatever the oracles say; refreshed by dump below
         exp_unsupported = ((feat & 7) & ~self.mask) != 0
         ev = [e.split()[1] for e in o.events]
         if exp_unsupported:
             if st != 4:
                 self.report('C10', 'create', 'create(features=%d) with user mask %d enabled returned %d, expected unsupported (4)' % (feat, self.mask, st))
+                self.report('C13', 'create-mask', 'after the enabling calls so far the abstract model has user mask %d, but create(features=%d) returned %d' % (self.mask, feat, st))
+                if st == 0:
+                    self.dump(k)
             if o.events:
                 self.report('C15', 'create-unsupported-events', 'create refused for features called dependencies: %s' % o.events)
         elif fail:
@@ -255,11 +289,11 @@ class ApiGen:
             self.report('C03', 'encode-phrase', 'lang %d coin %d: phrase %r differs from the published encoding %r' % (li, coin, s.decode('utf-8', 'replace'), exp.decode('utf-8', 'replace')))
         return s
 
-    def decode(self, coin, s, li=None):
+    def decode(self, coin, s, li=None, want_lang=False):
         """returns (op, slot or None)"""
         k = self.free_slot()
         if li is None:
-            o = self.op('decode %d %d %s' % (k, coin, hx(s)))
+            o = self.op('%s %d %d %s' % ('decoden' if (not want_lang and self.rnd.random() < 0.3) else 'decode', k, coin, hx(s)))
         else:
             o = self.op('decodex %d %d %d %s' % (k, coin, li, hx(s)))
         if o is None or o.head == 'skip':
@@ -411,7 +445,7 @@ class ApiGen:
             if k1o and k2o and k1o.events != k2o.events:
                 self.report('C04', 'keygen-path', 'KDF inputs of the decoded seed differ from those of the original: %s vs %s' % (k1o.events, k2o.events))
             self.free(k2)
-        o, k3 = self.decode(coin, s)
+        o, k3 = self.decode(coin, s, want_lang=True)
         if o is None:
             return
         if k3 is None:
@@ -531,7 +565,7 @@ class ApiGen:
                 self.report('C08', 'variant-seed', 'lang %d: permitted variant decoded to a different seed' % li)
             self.free(k2)
         # C09: auto-detection agrees with explicit decoding
-        o2, k3 = self.decode(coin, s)
+        o2, k3 = self.decode(coin, s, want_lang=True)
         if o2 is None:
             return
         if o2.kv('st') == '0':
